@@ -111,7 +111,7 @@ def describe():
                  "overloads picked(int)/picked(QString)), interleaved with SET/REPOINT/DESTROY events. Oracles: exactly one live connection per "
                  "handler on the most-arguments C++ signal; handler-channel effect trace (calls, logs, writes to non-target properties) equal "
                  "to the reference interpreter's, element by element; other emissions leave no handler-channel effects; state of non-target "
-                 "properties equal afterwards. 10% of cases plant one of 10 invalid handlers that must be rejected."),
+                 "properties equal afterwards. 10% of cases plant one of 10 invalid handlers that must be rejected. Handler literals include control characters before hex/octal digits; read-write-read sequences are built from the document's own bindings; 20% of the documents have handlers only; translation over an earlier version as in C02."),
         "fingerprint": "sha256 of document text; sha256 of (document, history lines)",
         "components": {
             "real": ["qmluic generate-ui release binary built from /repo working tree", "the emitted uisupport_*.h compiled unmodified", "the emitted .ui", "contrib/metatypes/*.json"],
